@@ -102,7 +102,7 @@ EXTRA = {
  "C04": "Added: C04_redirect_url (the octets a verifier rebuilds from consumer URL + separator + query are the signed ones unless the consumer URL's own query names a signed parameter) and its refutation C04_redirect_url_refuted (F-04d, reproduced on the implementation, known), C04_signature_kind_from_source.",
  "C05": "Added: C05_keyinfo_registered (a KeyInfo the signature carries must contain a certificate registered for the provider).",
  "C09": "Added: every SSO request of the structural-edit streams carries its document tree; Coq checks that the model of Unmarshal + projection (authn_of_doc) yields the abstract request the harness derived from the handler's own decoder.",
- "C06": "Added: C06_request_view / C06_wrong_root_refused / C06_trailing_content_refused (decode = InflateAndDecode + Unmarshal model + projection; checked against the real decoder on every SSO case), C06_encoding / C06_unknown_encoding_refused (decode oracle opened to InflateAndDecode + parser, form read off the source by C06_decode_from_source), C06_schema.",
+ "C06": "Added: C06_request_view / C06_wrong_root_refused / C06_trailing_content_refused / C06_unknown_content_ignored (decode = InflateAndDecode + Unmarshal model + projection; checked against the real decoder on every SSO case), C06_encoding / C06_unknown_encoding_refused (decode oracle opened to InflateAndDecode + parser, form read off the source by C06_decode_from_source), C06_schema.",
  "C07": "Added: C07_canonical_document_decodes (the decode model -- Unmarshal over the generated schema + projection, checked against the handler's decoder on every generated request -- is live on the canonical serialisation for all values).",
  "C08": "Added: C08_single_write, C08_terminal, C08_prechecks (delivery, terminal switch and pre-chain checks derived from the statement facts of sendBackResponse / ssoHandleFunc).",
  "C10": "Added: C10_response_key / C10_metadata_key / C10_key_guards_order (which answers of the key getters are accepted, from the guard statements of getResponseCert / getMetadataCert); the correspondence derives cert_ok / mkey_ok from the injected answer shape.",
